@@ -695,7 +695,32 @@ static C04Res c05Once(const Instance& I, const ParamSet& cfg, int loadMode, uint
       if((int)seen.size() != m) return R;
    }
    std::vector<std::vector<Q>> Buser = basisMatrix(M, bind);
-   if(m <= 40 && !nonsingularQ(Buser)) return R;
+   if(m > 40) return R;
+   {
+      // the claim is about numerically regular bases: exact condition number (inf-norm) must be moderate, otherwise a
+      // floating-point factorization may legitimately refuse the matrix or lose all digits
+      std::vector<std::vector<Q>> inv;
+      if(!invertQ(Buser, inv)) return R;
+      Q nb = 0, ni = 0;
+      for(int i = 0; i < m; i++)
+      {
+         Q a = 0, b = 0;
+         for(int k2 = 0; k2 < m; k2++)
+         {
+            a += qabs(Buser[i][k2]);
+            b += qabs(inv[i][k2]);
+         }
+         if(a > nb) nb = a;
+         if(b > ni) ni = b;
+      }
+      double cond = dq(nb) * dq(ni);
+      if(count) S.maxi("c05.max_condition_checked", cond <= 1e8 ? cond : 0);
+      if(cond > 1e8)
+      {
+         if(count) S.count("c05.skipped_ill_conditioned");
+         return R;
+      }
+   }
    const char* rep = sp._solver.rep() == SPX::COLUMN ? "col" : "row";
    bool scaled = sp._solver.isScaled();
    if(count)
